@@ -53,7 +53,8 @@ def build(spec):
             kw = {k: build(v) for k, v in spec.get("kw", {}).items()}
             return _REG[spec["cls"]](**kw)
         if "nd" in spec:
-            return np.array(spec["nd"], dtype=spec.get("dtype", "float64"))
+            a = np.array(spec["nd"], dtype=spec.get("dtype", "float64"))
+            return np.asfortranarray(a) if spec.get("order") == "F" else a
         if "tuple" in spec:
             return tuple(build(v) for v in spec["tuple"])
         if "fn" in spec:
